@@ -4,4 +4,4 @@ set -e
 cd "$(dirname "$0")/hx"
 export CARGO_NET_OFFLINE=true
 cargo build --release 2>&1 | tail -2
-cargo build --profile dbg 2>&1 | tail -2
+cargo build --profile dbg --target-dir "$(pwd)/target/dbg-build" 2>&1 | tail -2
